@@ -383,7 +383,7 @@ def corr_closure(ctx, gen):
 def witnesses(ctx):
     """the Lean witnesses of the unsound key kinds, replayed on the implementation as fixed two-step
     histories (pool object vs fresh object)"""
-    for grp in (_w_legendre, _w_global, _w_hash, _w_solvers):
+    for grp in (_w_legendre, _w_global, _w_hash, _w_solvers, _w_twins):
         try:
             grp(ctx)
         except Exception as ex:
@@ -504,6 +504,78 @@ def _w_hash(ctx):
               {"mesh": f"{mk.__name__}().refined(1)", "X": X.tolist(), "tind1": "int64 [1]", "tind2": "int32 [1, 0]"})
         mp2 = MappingIsoparametric(m, m.elem(), m.bndelem)
         e1, e2 = np.zeros((0,), dtype=np.int32), np.zeros((0, 1), dtype=np.int32)
+
+
+def _w_twins(ctx):
+    """every element class of the pool: ONE element object used on a mesh and then on meshes of the same
+    size (renumbered vertices + permuted cells; sheared) and of another size, against a fresh element
+    object on a clone of that mesh; and the mpc system tuple solved twice"""
+    import skfem
+    from skfem import Basis
+    from .. import elements as EL, meshes as M, c15ops
+    rng = random.Random(f"C15twins:{ctx.seed}")
+    cls = M.CLS
+    for kind, elems in EL.pool().items():
+        if ctx.tier == "quick":
+            # the stateful element classes always, of the others a sample
+            elems = [(n, f) for (n, f) in elems
+                     if any(k in n for k in ("Pp", "QuadP", "Morley", "Argyris", "BFS", "Hermite"))] + \
+                rng.sample(elems, min(3, len(elems)))
+        ax, ay, az = np.array([0., 0.5, 1.25]), np.array([0., 0.75, 1.]), np.array([0., 1.])
+        m1 = {"line": lambda: skfem.MeshLine1(np.array([[0., 0.5, 1.25, 2.]])),
+              "tri": lambda: skfem.MeshTri1.init_tensor(ax, ay),
+              "quad": lambda: skfem.MeshQuad1.init_tensor(ax, ay),
+              "tet": lambda: skfem.MeshTet1.init_tensor(ax[:2], ay[:2], az),
+              "hex": lambda: skfem.MeshHex1.init_tensor(ax, ay[:2], az),
+              "wedge": lambda: skfem.MeshTri1.init_tensor(ax[:2], ay) * skfem.MeshLine(az)}[kind]()
+        p2, t2, _ = M.renumber(rng, m1.p, m1.t)
+        t2, _ = M.permute_cells(rng, t2)
+        twin = cls[kind](p2, t2)
+        if twin.nelements != m1.nelements:
+            continue
+        others = [("renumbered twin", twin), ("scaled", m1.scaled(tuple([0.5, 2.0, 1.5][:m1.p.shape[0]])))]
+        if kind != "wedge":
+            others.append(("refined", m1.refined(1)))
+        import time
+        for name, fac in elems:
+            for how, m2 in others:
+                e = fac()
+                t0 = time.time()
+                try:
+                    Basis(m1, e)
+                except Exception:
+                    break
+                slow = time.time() - t0 > 0.4
+                if slow and how == "refined":
+                    continue
+                _check(ctx, f"{name} object used on a mesh and then on its {how}", "elem-reuse:" + how.split()[0],
+                       lambda: c15pool.basis_value(Basis(m2, e)),
+                       lambda: c15pool.basis_value(Basis(c15pool.clone_mesh(m2), fac())),
+                       {"elem": name, "how": how, "cls": type(m1).__name__, "p1": m1.p.tolist(), "t1": m1.t.tolist(),
+                        "p2": m2.p.tolist(), "t2": m2.t.tolist()})
+    # the tuple returned by mpc kept and solved twice
+    from skfem import MeshTri, ElementTriP1, solve
+    from skfem.utils import mpc
+    b = Basis(MeshTri().refined(2), ElementTriP1())
+    A, f = c15ops.make_form("spd").assemble(b), c15ops.make_form("f").assemble(b)
+    D = b.get_dofs().all()
+    I = np.setdiff1d(np.arange(b.N), D)
+
+    def twice():
+        sysm = mpc(A, f, S=D, M=I[:1])
+        x0 = sysm[2].copy()
+        r1 = solve(*sysm)
+        k1 = r1.copy()
+        r2 = solve(*sysm)
+        return {"first": k1, "first_after_second": r1, "second": r2, "x_before": x0, "x_after": sysm[2]}
+
+    def once():
+        x0 = mpc(A, f, S=D, M=I[:1])[2]
+        r = solve(*mpc(A, f, S=D, M=I[:1]))
+        return {"first": r, "first_after_second": r, "second": solve(*mpc(A, f, S=D, M=I[:1])), "x_before": x0,
+                "x_after": x0}
+    _check(ctx, "system tuple of mpc() solved twice", "mpc-twice", twice, once,
+           {"mesh": "MeshTri().refined(2)", "elem": "ElementTriP1", "S": "boundary DOFs", "M": "first interior DOF"})
 
 
 def _w_solvers(ctx):
